@@ -94,7 +94,8 @@ ASSUME = {
     ],
     "C07": [
   "staging theorems: the outer SELECT is in the filter/projection/aggregate/order grammar (blind_select), the inner statement does not read the CTE being defined (avoids), inner results are arrays; results other than OutOfModel (fuel monotonicity excludes it)",
-  "a subquery cannot see the enclosing query's CTEs through `<-` in the model (sub_ctx drops them) whereas the real code keeps the thunk in the data map; the generators do not produce that shape; the real code satisfies composed = staged there as well",
+  "a subquery sees the enclosing query's CTEs through `<-` in FROM position (frames c_up; C07_up_* theorems); a CTE read through `<-` in COLUMN position (`<-.c.id` as a value) is evaluated mid-path by the real Reader and is NULL in the model: not generated",
+  "subquery_standalone / in_subquery / exists theorems take `no_thunks ctx` (no CTE of an enclosing query in scope): with CTEs in scope the general form subquery_scoped applies; a CTE name re-declared inside its own body is Err in the model (guard by name) and succeeds in the code: not generated",
   "EXISTS with a select list other than * : only the implication is proved (C07_exists_select_list_partial); on a column-name clash the outer row's value wins, as in the code",
     ],
     "C06": ["row equivalence = veqb (numbers by IEEE == plus sign of zero, NaN = NaN); FeqLaws (symmetry, transitivity of feqb) is a premise discharged from the stdlib's FloatAxioms.eqb_spec; the sha256 fingerprint over the %#v text is assumed injective",
